@@ -86,8 +86,8 @@ def calibrate():
 
 def plan(tier, seed):
     n = 16
-    per = 6000 if tier == 'quick' else 120000
-    return [dict(part=i, seed=seed * 100 + i, n=per, tier=tier) for i in range(n)] + [dict(kind='protocol', seed=seed, n=150 if tier == 'quick' else 4000)]
+    per = 24000 if tier == 'quick' else 120000
+    return [dict(part=i, seed=seed * 100 + i, n=per, tier=tier) for i in range(n)] + [dict(kind='protocol', seed=seed, n=600 if tier == 'quick' else 4000)]
 
 
 def expected(attrs):
